@@ -36,7 +36,7 @@ Member(n, t, m, cap, vb, vs, js, pb, ps, jp, seed, label, rng) ==
   LET vals  == [j \in 1..m |-> Val(IF j = js THEN vs ELSE vb, n)]
       proms == [j \in 1..m |-> Prom(IF j = jp THEN ps ELSE pb, vals[j], n)]
   IN [n |-> n, t |-> t, m |-> m, cap |-> cap, vals |-> vals, proms |-> proms, seed |-> seed, label |-> label,
-      rng |-> rng, wit |-> NoWit, mut |-> NoMut, bseed |-> 0,
+      rng |-> rng, wit |-> NoWit, mut |-> NoMut, bseed |-> 0, rvar |-> 0, zb |-> 0,
       v |-> [n |-> n, t |-> t, cap |-> cap, proms |-> proms, seed |-> seed, label |-> label, pgH |-> 0, pgG |-> 0,
              commit |-> "same", cj |-> 0]]
 Plain(n, t, m, cap, seed) == Member(n, t, m, cap, "mid", "mid", 0, "none", "none", 0, seed, 0, "chacha")
@@ -68,7 +68,11 @@ FamComplete ==
       S3 == { One(Member(n, t, 1, 1, "mid", "mid", 0, "lt", "lt", 0, sd, lb, rng), mode) :
                 n \in {2, 64}, t \in 1..6, sd \in {0, 1}, lb \in {0, 1},
                 rng \in {"chacha", "zero", "const", "ctr", "p2"}, mode \in {"VerifyOnly", "RecoverAndVerify"} }
-  IN S1 \cup S2 \cup S3
+      \* openings whose blinding factors are all zero at one position (value 0 then gives the identity as commitment)
+      S4 == { One([Member(n, t, m, m, "mid", vs, js, "none", ps, js, IF m = 1 THEN sd ELSE 0, 0, "chacha") EXCEPT !.zb = js], mode) :
+                n \in {1, 8, 64}, t \in {1, 3}, m \in {1, 4}, vs \in {"zero", "one"}, js \in {1, 4}, ps \in {"none", "zero"}, sd \in {0, 1},
+                mode \in {"VerifyOnly", "RecoverAndVerify"} }
+  IN S1 \cup S2 \cup S3 \cup {s \in S4 : s.members[1].zb <= s.members[1].m}
 
 (***************************************************************************************************)
 (* witness (C06): every single violation of the witness relation at every position                  *)
@@ -198,6 +202,7 @@ FamHedge ==
             \cup { LET ps == [a.proms EXCEPT ![j] = IF @ = None THEN U64Zero ELSE U64Dec(@)] IN [a EXCEPT !.proms = ps, !.v.proms = ps] : j \in 1..a.m }
             \cup { [a EXCEPT !.vals[j] = U64Dec(@)] : j \in 1..a.m }
             \cup { [a EXCEPT !.seed = 2, !.v.seed = 2] }
+            \cup { [a EXCEPT !.rvar = 1] }          \* same inputs, a different external RNG stream (only distinguishable for "chacha")
   IN UNION { { Scen(<<a, b>>, "VerifyOnly", NoSkew, FALSE) : b \in {b \in Vary(a) : (b.seed = 0 \/ b.m = 1) /\ \A j \in 1..b.m : U64Le(PVal(b.proms[j]), b.vals[j])} } :
              a \in {a \in Base : a.seed = 0 \/ a.m = 1} }
 
